@@ -5,6 +5,7 @@ package vf
 import (
 	"encoding/json"
 	"fmt"
+	"io"
 	"os"
 	"path/filepath"
 	"regexp"
@@ -14,6 +15,10 @@ import (
 	"sync"
 	"time"
 )
+
+// Out is the protocol channel (the process's real stdout). The harness binary
+// points os.Stdout at /dev/null because parts of grip print with fmt.Printf.
+var Out io.Writer = os.Stdout
 
 // Root is /verif (overridable for tests through VERIF_ROOT).
 func Root() string {
@@ -170,7 +175,7 @@ func (r *Run) Finish() int {
 		}
 	}
 	for _, l := range knownLines {
-		fmt.Println(l)
+		fmt.Fprintln(Out, l)
 	}
 	os.MkdirAll(filepath.Join(Root(), "replays"), 0o755)
 	if old, _ := filepath.Glob(filepath.Join(Root(), "replays", r.Prop+"-*.json")); len(old) > 0 {
@@ -183,8 +188,8 @@ func (r *Run) Finish() int {
 		p := filepath.Join(Root(), "replays", fmt.Sprintf("%s-%d.json", r.Prop, i))
 		data, _ := json.MarshalIndent(map[string]any{"property": r.Prop, "sig": v.Sig, "detail": v.Detail, "replay": v.Replay, "cases": r.violN[s]}, "", " ")
 		os.WriteFile(p, data, 0o644)
-		fmt.Printf("VIOLATION property=%s replay=%s\n", r.Prop, p)
-		fmt.Printf("  sig: %s\n  detail: %s\n", v.Sig, firstLines(v.Detail, 12))
+		fmt.Fprintf(Out, "VIOLATION property=%s replay=%s\n", r.Prop, p)
+		fmt.Fprintf(Out, "  sig: %s\n  detail: %s\n", v.Sig, firstLines(v.Detail, 12))
 	}
 	r.Coverage["known_findings_hit"] = knownLines
 	r.Coverage["fresh_violation_sigs"] = fresh
@@ -204,7 +209,7 @@ func (r *Run) Finish() int {
 		fmt.Fprintln(os.Stderr, "cannot write evidence:", err)
 		return 2
 	}
-	fmt.Printf("%s %s: %d fresh violation(s), %d known finding(s) hit, wall %.1fs\n", r.Prop, r.Tier, len(fresh), len(knownLines), time.Since(r.start).Seconds())
+	fmt.Fprintf(Out, "%s %s: %d fresh violation(s), %d known finding(s) hit, wall %.1fs\n", r.Prop, r.Tier, len(fresh), len(knownLines), time.Since(r.start).Seconds())
 	if len(fresh) > 0 {
 		return 1
 	}
